@@ -55,6 +55,7 @@ def handleGw (g : GwDrv) : List String → GwDrv × String
     match hx e with
     | some eui => ({ g with reg := g.reg.filter (fun x => x.1 != eui) }, "ok")
     | none => (g, "bad-args")
+  | ["gw.refused", _] => (g, "ok")     -- a registry call the store refuses: the registry stays as it was
   | ["gw.dgram", host, port, bytes, rx] =>
     match nat? port, hx bytes, parseRxpks rx with
     | some p, some bs, some rxpk =>
